@@ -1,10 +1,15 @@
 (* C14/Model.v — the binding codecs, as coded.
-   Mirrors: pack.http_form_post_message (66-99), pack.http_redirect_message (127-190, sign=False),
-   pack.make_soap_enveloped_saml_thingy for str input without header parts (197-244),
-   httpbase.use_http_artifact (246-253), s_utils.deflate_and_base64_encode /
+   Mirrors: pack.http_form_post_message (66-99), pack.add_query (126-139),
+   pack.http_redirect_message (142-204, sign=False),
+   pack.make_soap_enveloped_saml_thingy for str input without header parts (211-257),
+   httpbase.use_http_artifact (248-255), httpbase.use_http_uri (257-282, the SAMLRequest branch),
+   s_utils.deflate_and_base64_encode /
    decode_base64_and_inflate (144-163), Entity.unravel (423-462),
    entity.create_artifact (105-127), Entity.artifact2destination (1574-1601).
-   zlib, SHA-1 and the XML parser of the SOAP receiver are Section variables. *)
+   zlib, SHA-1 and the XML parser of the SOAP receiver are Section variables.
+   Definitions named ..._v0 restate the code as it was BEFORE a repair commit (fc5e66e9: query
+   glue; 9f16767d: declaration text inside the SOAP body); they are kept for the ..._v0_refuted
+   theorems and for Corr.cls, which recognises a regression to the old behaviour. *)
 From Coq Require Import String Ascii List Bool Arith DecimalString.
 From Verif Require Import Base.Str Base.Percent Base.Base64 Base.Html Base.Query.
 Import ListNotations.
@@ -75,6 +80,14 @@ Fixpoint rstrip_chars (p : ascii -> bool) (s : string) : string :=    (* s.rstri
   | String c r =>
       let r' := rstrip_chars p r in
       if p c && is_empty r' then EmptyString else String c r'
+  end.
+
+(* s.endswith(c) for a one-character c *)
+Fixpoint last_is (c : ascii) (s : string) : bool :=
+  match s with
+  | EmptyString => false
+  | String d EmptyString => Ascii.eqb d c
+  | String _ r => last_is c r
   end.
 
 (* ------------------------------------------------------------------ zlib / unravel *)
@@ -193,13 +206,36 @@ Section Codec.
     else if String.eqb typ "SAMLart" then Some ((typ, msg) :: relay_arg rs)
     else None.
 
-  Definition glue_char (loc : string) : string :=
-    if is_empty (url_query loc) then "?" else "&".
+  (* pack.add_query(location, query):
+       base, _hash, fragment = location.partition("#")
+       "?" not in base -> "?" ; base ends with "?" or "&" -> "" ; else "&"
+       f"{base}{glue_char}{query}{_hash}{fragment}" *)
+  Definition glue_of (base : string) : string :=
+    if negb (has c_qm base) then "?"
+    else if last_is c_qm base || last_is c_and base then ""
+    else "&".
+
+  Definition hash_tail (loc : string) : string :=          (* _hash + fragment *)
+    if has c_hash loc then String c_hash (after c_hash loc) else "".
+
+  Definition add_query (loc q : string) : string :=
+    let base := before c_hash loc in
+    base ++ glue_of base ++ q ++ hash_tail loc.
 
   (* http_redirect_message(message, location, relay_state, typ, sign=False): the Location header *)
   Definition http_redirect_message (msg loc rs typ : string) : option string :=
     match redirect_args msg rs typ with
-    | Some args => Some (loc ++ glue_char loc ++ urlencode args)
+    | Some args => Some (add_query loc (urlencode args))
+    | None => None
+    end.
+
+  (* before fc5e66e9: glue_char = "&" if urlparse(location).query else "?"; glue_char.join([location, string]) *)
+  Definition glue_char_v0 (loc : string) : string :=
+    if is_empty (url_query loc) then "?" else "&".
+
+  Definition http_redirect_message_v0 (msg loc rs typ : string) : option string :=
+    match redirect_args msg rs typ with
+    | Some args => Some (loc ++ glue_char_v0 loc ++ urlencode args)
     | None => None
     end.
 
@@ -209,6 +245,14 @@ Section Codec.
 
   (* httpbase.use_http_artifact(message, destination, relay_state)["url"] *)
   Definition use_http_artifact (art dest rs : string) : string :=
+    add_query dest (urlencode (("SAMLart", art) :: relay_arg rs)).
+
+  (* httpbase.use_http_uri(message, "SAMLRequest", destination, relay_state)["url"] *)
+  Definition use_http_uri (ident dest rs : string) : string :=
+    add_query dest (urlencode (("ID", ident) :: relay_arg rs)).
+
+  (* before fc5e66e9: f"{destination}?{query}" *)
+  Definition use_http_artifact_v0 (art dest rs : string) : string :=
     dest ++ "?" ++ urlencode (("SAMLart", art) :: relay_arg rs).
 
   (* ---------------------------------------------------------------- SOAP envelope (str input, no header parts) *)
@@ -230,7 +274,10 @@ Section Codec.
       end
     else t.
 
-  Definition soap_thingy (t : string) : string := replace PREFIX "" (strip_decl t).
+  Definition soap_thingy (t : string) : string := strip_decl t.
+
+  (* before 9f16767d: thingy = thingy.replace(PREFIX, "") after the leading declaration was removed *)
+  Definition soap_thingy_v0 (t : string) : string := replace PREFIX "" (strip_decl t).
 
   (* the find / rfind / replace surgery on the precursor *)
   Definition surgery (s thingy : string) : option string :=
@@ -255,6 +302,7 @@ Section Codec.
 
   (* make_soap_enveloped_saml_thingy(thingy: str); None is unreachable for SOAP_PRECURSOR *)
   Definition make_soap (t : string) : option string := surgery SOAP_PRECURSOR (soap_thingy t).
+  Definition make_soap_v0 (t : string) : option string := surgery SOAP_PRECURSOR (soap_thingy_v0 t).
 
   (* ---------------------------------------------------------------- artifacts *)
 
